@@ -58,7 +58,10 @@ impl Story {
             .set(variable_name, value_type.clone())?;
 
         if notify_observers {
-            self.notify_variable_changed(variable_name, value_type);
+            // Notify with the value that was stored: it can differ from the
+            // argument (an empty list keeps the origins of the list it replaces).
+            let stored = self.get_state().variables_state.get(variable_name);
+            self.notify_variable_changed(variable_name, stored.as_ref().unwrap_or(value_type));
         }
 
         Ok(())
